@@ -356,6 +356,8 @@ def section_store(c, chk, ex):
     nmulti = nsingle = 0
     bad = None
     bad2 = None
+    bad3 = None
+    bad4 = None
     for p in ex.explore(fn):
         if p.end != 'ret' or p.retval is None or p.retval == sym.C0:
             continue
@@ -372,10 +374,13 @@ def section_store(c, chk, ex):
         multi = next((v for k, v in facts.items() if k == 'opt->flags has MULTI'), None)
         stores = [e for e in p.events if e.kind == 'store' and e.field == 'section' and sym.object_of(e.addr)[0] != 'alloca']
         fresh = [e for e in stores if sym.root_of(e.val)[0] == 'call' and sym.root_of(e.val)[1] in ex.FRESH]
+        inits = [e for e in p.events if e.kind == 'call' and e.name == 'cfg_init_defaults']
         if multi:
             nmulti += 1
             if not fresh:
                 bad = bad or p
+            elif not any(e.args and e.args[0] == fresh[-1].val for e in inits) and not any(sym.norm(e.args[0]) == sym.norm(('ld', fresh[-1].addr)) for e in inits if e.args):
+                bad3 = bad3 or p          # a new instance that never gets the declared defaults of its options
         elif multi is False:
             # a single section that exists already: found by the path's own test of the slot
             exists = any(k.endswith('.section') or k.endswith('->section') for k, v in facts.items() if v)
@@ -383,6 +388,8 @@ def section_store(c, chk, ex):
                 nsingle += 1
                 if stores or any(e.kind == 'call' and e.name == 'cfg_free' for e in p.events):
                     bad2 = bad2 or p
+                elif inits:
+                    bad4 = bad4 or p          # kept, but its options are set back to their defaults: not a merge
     if bad is not None:
         chk.fail('R1.11', 'multi-section-not-rebuilt', c.where(bad.last_ins) if bad.last_ins is not None else c.where(fn),
                  'cfg_setopt() can store a CFGF_MULTI section and succeed without installing a newly built instance (%s): when the title repeats, '
@@ -395,6 +402,14 @@ def section_store(c, chk, ex):
                  'cfg_setopt() replaces or releases an existing single section when it is written again (%s): re-opening it must merge' % fp.cond_text(bad2, 5))
     elif nsingle:
         chk.ok('R1.11', 'cfg_setopt: %d stores into an existing single section' % nsingle, 'the instance is kept')
+    if bad3 is not None:
+        chk.fail('R1.11', 'multi-section-no-defaults', c.where(bad3.last_ins) if bad3.last_ins is not None else c.where(fn),
+                 'cfg_setopt() can install a newly built instance of a multi section without giving it the declared defaults of its options (%s): e.g. a section defined again under '
+                 'an existing title comes out with empty options and without its pre-created sub-sections' % fp.cond_text(bad3, 5))
+    if bad4 is not None:
+        chk.fail('R1.11', 'single-section-reinitialised', c.where(bad4.last_ins) if bad4.last_ins is not None else c.where(fn),
+                 'cfg_setopt() runs cfg_init_defaults() on a single section that exists already when it is written again (%s): re-opening the section sets its options back to '
+                 'their defaults (and appends list defaults once more) instead of merging into what it holds' % fp.cond_text(bad4, 5))
     chk.floor('R1.11 successful stores of a multi section', nmulti, 2)
     chk.floor('R1.11 stores into an existing single section', nsingle, 1)
 
